@@ -4,6 +4,8 @@
 //	P p_no_false_alarm <img>               generated well-formed image: parses and validates clean
 //	P p_saved_clean <img>                  Parse -> Assemble -> Parse -> Validate reports nothing
 //	P p_detect_built <kind>                 the same on a large image built inside the worker (pad16m)
+//	P p_edit_big <size> <0|1>               worker-built 18 MiB FFSv2 volume, replace_pe32 with a payload of <size>
+//	                                       bytes (file crosses 16 MiB), save: validate quiet on tree and saved bytes
 //	P p_detect <img> <range> <base> <pos> <vals>
 //	                                       img validates clean; for every replacement value of byte <pos>
 //	                                       (a protected position, <range> = fv-header | file-header | body |
@@ -15,6 +17,7 @@ import (
 	"fmt"
 	"strings"
 
+	"github.com/linuxboot/fiano/pkg/guid"
 	"github.com/linuxboot/fiano/pkg/uefi"
 	"github.com/linuxboot/fiano/pkg/visitors"
 	. "verifharness/common"
@@ -194,6 +197,71 @@ func pDetectBuilt(args []string) string {
 		return detectAt(img, "file-header", base, base+20, []byte{0xFF, 0x01})
 	}
 	return "harness-error unknown-kind"
+}
+
+// p_edit_big <payload size> <trailing file 0/1>: an edit -> save -> parse -> validate case built inside
+// the worker: an 18 MiB FFSv2 volume with a driver (PE32 + UI section), optionally a second file behind
+// it; replace_pe32 with a payload of the given size (around 16 MiB the file needs the extended header,
+// the PE32 section the extended section header and the volume becomes FFSv3), Assemble; validate must be
+// quiet on the assembled tree and on the saved bytes parsed again.
+func pEditBig(args []string) string {
+	size := int(UnN(args[0]))
+	var g [16]byte
+	copy(g[:], []byte{0x11, 0x22, 0x33, 0x44, 0x55, 0x66, 0x77, 0x88, 0x99, 0xAA, 0xBB, 0xCC, 0xDD, 0xEE, 0xFF, 0x00})
+	drv := &uefigen.File{GUID: g, Type: 7, State: 0xF8, Attr: 0x40,
+		Secs: []*uefigen.Sec{{Type: 0x10, Body: []byte("MZ-small-payload")}, {Type: 0x19, Body: []byte{1, 2, 3}}}}
+	files := []*uefigen.File{drv}
+	if len(args) > 1 && args[1] == "1" {
+		f2 := &uefigen.File{Type: 1, State: 0xF8, Attr: 0x40, Body: []byte{9, 8, 7, 6, 5}}
+		f2.GUID[0] = 0x22
+		files = append(files, f2)
+	}
+	const fvLen = 18 << 20
+	v := &uefigen.Vol{FSGUID: uefigen.FFS2, Attrs: 0x800 | 0x4FEFF, Revision: 2, BlockSize: 4096, Blocks: fvLen / 4096, Files: files}
+	img, _ := uefigen.EmitVol(v)
+	if len(img) != fvLen {
+		return "harness-error volume-size"
+	}
+	if errs, perr := runValidate(img); perr != nil || len(errs) != 0 {
+		return "harness-error built-image-not-clean"
+	}
+	uefiops.Reset()
+	root, err := uefi.Parse(img)
+	if err != nil {
+		return "harness-error parse"
+	}
+	pe := make([]byte, size)
+	copy(pe, "MZ")
+	for i := 2; i < len(pe); i++ {
+		pe[i] = byte(i * 7)
+	}
+	gg := guid.GUID(g)
+	r := &visitors.ReplacePE32{Predicate: visitors.FindFileGUIDPredicate(gg), NewPE32: pe}
+	if err := r.Run(root); err != nil {
+		return "FAIL replace-pe32-error " + clip(err.Error())
+	}
+	if err := (&visitors.Assemble{}).Run(root); err != nil {
+		return "skip" // out of space and the like: nothing was saved
+	}
+	vt := &visitors.Validate{}
+	if err := vt.Run(root); err != nil {
+		return "FAIL validate-run-error-on-assembled-tree " + clip(err.Error())
+	}
+	if len(vt.Errors) != 0 {
+		return fmt.Sprintf("FAIL false-alarm-on-assembled-tree class=%s n=%d %s", classOf(vt.Errors[0]), len(vt.Errors), clip(vt.Errors[0].Error()))
+	}
+	saved := append([]byte{}, root.Buf()...)
+	if len(saved) != fvLen {
+		return fmt.Sprintf("FAIL saved-size %x", len(saved))
+	}
+	errs, perr := runValidate(saved)
+	if perr != nil {
+		return "FAIL saved-image-does-not-parse " + clip(perr.Error())
+	}
+	if len(errs) != 0 {
+		return fmt.Sprintf("FAIL false-alarm-on-saved class=%s n=%d %s", classOf(errs[0]), len(errs), clip(errs[0].Error()))
+	}
+	return "ok"
 }
 
 func pDetect(args []string) string {
@@ -391,6 +459,10 @@ func gen(r *Rng, tier string, emit Emit) {
 		emit("P", "p_detect", H(img), "file-header", N(uint64(base)), N(uint64(base+21)), H([]byte{0x00, 0xFE}))
 	}
 	emit("P", "p_detect_built", "pad16m")
+	// directed: an edit that makes a sectioned file of an FFSv2 volume cross 16 MiB (worker-built)
+	for _, c := range [][2]string{{"10000", "0"}, {"ffffc0", "1"}, {"ffffd3", "0"}, {"1000100", "0"}, {"1000100", "1"}} {
+		emit("P", "p_edit_big", c[0], c[1])
+	}
 	// directed: files in the large form below 16 MiB, with and without sections
 	{
 		img := directedLargeForm()
@@ -474,6 +546,9 @@ func gen(r *Rng, tier string, emit Emit) {
 		}
 	}
 	genAudit(r.Fork(0xA0D1709), tier, emit)
+	// seed-dependent payload sizes around the limit (drawn last: the streams above are not shifted)
+	emit("P", "p_edit_big", N(uint64(0xFFFFD0+r.Intn(0x40))), "1")
+	emit("P", "p_edit_big", N(uint64(0x1000000+r.Intn(0x10000))), N(uint64(r.Intn(2))))
 }
 
 func main() {
@@ -483,6 +558,7 @@ func main() {
 	Register("p_saved_clean", pSavedClean)
 	Register("p_detect", pDetect)
 	Register("p_detect_built", pDetectBuilt)
+	Register("p_edit_big", pEditBig)
 	Register("p_edit_clean", pEditClean)
 	Main(gen)
 }
